@@ -5,6 +5,7 @@ import (
 	"bytes"
 	"errors"
 	"io"
+	"io/fs"
 	"strings"
 
 	"github.com/philpearl/avro"
@@ -25,6 +26,10 @@ type WFault struct {
 	Kind  string `json:"kind"`  // "err" | "short" | "fullerr"
 	K     int    `json:"k"`     // index of the Write call (0-based)
 	Short int    `json:"short"` // for "short": accepted bytes = Short mod len(p) (Short<0: len-1)
+	// Flavour: "" returns the bare sentinel; "patherror" returns a *fs.PathError
+	// wrapping it, as a real file does (the caller must still find that exact
+	// error value in the chain it gets back).
+	Flavour string `json:"flavour,omitempty"`
 }
 
 // DiskWriter records everything written to it.
@@ -37,6 +42,34 @@ type DiskWriter struct {
 	// FiredAccepted is how many bytes the faulted write accepted.
 	FiredAccepted int
 	Yield         func(site string)
+	// Injected is the exact error value the faulted call returned.
+	Injected error
+	// Flushes counts calls of Flush (FlushWriter only).
+	Flushes int
+}
+
+func (w *DiskWriter) injected() error {
+	if w.Fault != nil && w.Fault.Flavour == "patherror" {
+		w.Injected = &fs.PathError{Op: "write", Path: "/sim/disk", Err: ErrInjected}
+	} else {
+		w.Injected = ErrInjected
+	}
+	return w.Injected
+}
+
+// FlushWriter is a DiskWriter that also has a Flush method, like a buffered
+// writer: code that decides to flush its destination must not lose that
+// call's error either. Fault kind "flusherr" fails the K-th Flush call.
+type FlushWriter struct{ *DiskWriter }
+
+func (f FlushWriter) Flush() error {
+	k := f.Flushes
+	f.DiskWriter.Flushes++
+	if f.Fault != nil && !f.Fired && f.Fault.Kind == "flusherr" && f.Fault.K == k {
+		f.DiskWriter.Fired = true
+		return f.injected()
+	}
+	return nil
 }
 
 func (w *DiskWriter) Write(p []byte) (int, error) {
@@ -46,16 +79,16 @@ func (w *DiskWriter) Write(p []byte) (int, error) {
 	k := w.Writes
 	w.Writes++
 	w.Lens = append(w.Lens, len(p))
-	if w.Fault != nil && !w.Fired && w.Fault.K == k {
+	if w.Fault != nil && !w.Fired && w.Fault.K == k && w.Fault.Kind != "flusherr" {
 		w.Fired = true
 		switch w.Fault.Kind {
 		case "err":
-			return 0, ErrInjected
+			return 0, w.injected()
 		case "fullerr":
 			// the device took every byte and still reports failure (legal for an io.Writer)
 			w.Buf = append(w.Buf, p...)
 			w.FiredAccepted = len(p)
-			return len(p), ErrInjected
+			return len(p), w.injected()
 		case "short":
 			n := 0
 			if len(p) > 0 {
@@ -67,7 +100,7 @@ func (w *DiskWriter) Write(p []byte) (int, error) {
 			}
 			w.Buf = append(w.Buf, p[:n]...)
 			w.FiredAccepted = n
-			return n, ErrInjected
+			return n, w.injected()
 		}
 	}
 	w.Buf = append(w.Buf, p...)
